@@ -86,7 +86,8 @@ def pkt_line(p: Any) -> str:
     return "pkt " + sers.show(p)
 
 
-RETAINED = {"packets_retained_and_rechecked": 0, "buffer_like_packets": 0, "mutated": 0}   # evidence counters
+RETAINED = {"packets_retained_and_rechecked": 0, "buffer_like_packets": 0, "mutated": 0,    # evidence counters
+            "errors_retained_and_rechecked": 0, "view_remainders": 0}
 
 
 class Retain:
@@ -94,10 +95,35 @@ class Retain:
     consumer returned, next to the text it had at the moment of delivery; `finish()` is called once the whole stream has been
     received and renders every retained packet AGAIN: a packet whose value changed after it was delivered (e.g. a view of
     the receive buffer that later reads overwrote), or that cannot be read any more (released view), gives a line
-    `mutated #<i> <then> -> <now>`.  Oracles treat any such line as a violation of "returns exactly those packets"."""
+    `mutated #<i> <then> -> <now>`.  Oracles treat any such line as a violation of "returns exactly those packets".
+    The reported parse errors are retained the same way (`add_err`): the remainder an error carries (`remaining_data`, and the
+    one of the wrapped IncrementalDeserializeError) is rendered when the error is raised and again at the end of the run;
+    an error whose remainder changed meanwhile (a view of the receive buffer that the consumer then overwrote) gives
+    `mutated #<i> err-remainder <then> -> <now>`: the error does not carry the unread remainder (C06)."""
 
     def __init__(self) -> None:
         self.kept: list[tuple[int, str, Any]] = []
+        self.errs: list[tuple[int, str, Any]] = []
+
+    @staticmethod
+    def _rem_text(e: Any) -> str:
+        out = [core.hexs(bytes(e.remaining_data))]
+        inner = getattr(e, "error", None)
+        if isinstance(inner, IncrementalDeserializeError):
+            out.append(core.hexs(bytes(inner.remaining_data)))
+        return "/".join(out)
+
+    def add_err(self, e: Any, lines: list[str]) -> None:
+        """append the `err` line of the parse error `e` to `lines` and retain `e` with the remainder it carries now"""
+        lines.append(err_line(e))
+        try:
+            then = self._rem_text(e)
+        except Exception as x:  # noqa: BLE001
+            then = f"unreadable ({type(x).__name__})"
+        self.errs.append((len(self.errs), then, e))
+        RETAINED["errors_retained_and_rechecked"] += 1
+        if isinstance(e.remaining_data, memoryview):
+            RETAINED["view_remainders"] += 1
 
     def add(self, p: Any, lines: list[str]) -> None:
         """append the `pkt` line of `p` to `lines` and retain `p`"""
@@ -118,11 +144,23 @@ class Retain:
                 RETAINED["mutated"] += 1
                 lines.append(f"mutated #{i} {then[4:]} -> {now[4:] if now.startswith('pkt ') else now}")
         self.kept.clear()
+        for i, then, e in self.errs:
+            try:
+                now = self._rem_text(e)
+            except Exception as x:  # noqa: BLE001
+                now = f"unreadable ({type(x).__name__}: {x})"
+            if now != then:
+                RETAINED["mutated"] += 1
+                lines.append(f"mutated #{i} err-remainder {then} -> {now}")
+        self.errs.clear()
 
 
 def mutated(real: list[str]) -> str | None:
     """oracle helper: the first `mutated` line of a run, as a failure text"""
     for ln in real:
+        if ln.startswith("mutated ") and " err-remainder " in ln:
+            return ("the remainder carried by a reported parse error changed after the error had been raised "
+                    "(it is not the unread remainder any more): " + ln[8:])
         if ln.startswith("mutated "):
             return "a delivered packet changed after it had been returned to the application: " + ln[8:]
     return None
@@ -161,7 +199,7 @@ def drive_copy(proto, chunks: list[bytes], lines: list[str], trace: list | None 
                 except StopIteration:
                     break
                 except StreamProtocolParseError as e:
-                    lines.append(err_line(e))
+                    keep.add_err(e, lines)
                 else:
                     keep.add(p, lines)
                 arg = None
@@ -205,7 +243,7 @@ def drive_buffered(proto, stream: bytes, fills: list[int], hint: int, lines: lis
                 except StopIteration:
                     break
                 except StreamProtocolParseError as e:
-                    lines.append(err_line(e))
+                    keep.add_err(e, lines)
                 else:
                     keep.add(p, lines)
                 arg = None
